@@ -33,7 +33,9 @@ MVN_VERS = [b"0.9.0", b"1.0.0", b"1.0", b"1.1.0", b"1.2.0", b"2.0.0", b"2.1.0-be
 PY_REQS = [b">=1.0", b"~=1.1", b"==1.*", b"<2", b">=1.0,<1.2", b"!=1.1.0", b"", b"==2.0.0", b">=2", b">1.0.0", b"<=1.1.0",
            b">=2.1.0b1", b"<2.1.0b1", b">=1.0,<2.1.0b1", b">=0.9.0", b"<=2.1.0b1", b">=1.2.0rc1"]
 PY_VERS = [b"0.9.0", b"1.0.0", b"1.0", b"1.1.0", b"1.2.0", b"2.0.0", b"2.0", b"2.1.0b1"]   # incl. PEP 440-equal spellings
-PY_MARKERS = [b"python_version >= '3.0'", b"python_version < '3.0'", b"os_name == 'nt'", b"sys_platform == 'linux'", b"extra == 'x'", b"os_name != 'nt' and python_version >= '2.7'"]
+PY_MARKERS = [b"python_version >= '3.0'", b"python_version < '3.0'", b"os_name == 'nt'", b"sys_platform == 'linux'", b"extra == 'x'", b"os_name != 'nt' and python_version >= '2.7'",
+              # not markers of this resolver (names that extend a known variable name): refused, and refused every time
+              b"'x' in extras", b"extras == 'x'", b"python_versions >= '3'", b"os_names == 'nt'", b"extra_x == 'x'"]
 
 
 def universe(rng, sysr):
